@@ -1,5 +1,5 @@
 """C17 — deep graphs, each op visited once, untracked computations keep no history"""
-import gc, time, weakref
+import gc, os, sys, time, types, weakref, collections, tracemalloc
 import numpy as np
 import common
 from common import show_floats, show_ints, fbits
@@ -9,12 +9,21 @@ PROP = 'C17'
 LEAN_TARGETS = ['Props.C17']
 REQUIRED_THEOREMS = ['Props.C17.each_fn_once', 'Props.C17.trace_linear', 'Props.C17.postorder_covers_reachable',
                      'Props.C17.untracked_has_no_history', 'Props.C17.loop_is_iterative_and_linear']
+REQUIRED_THEOREMS += ['Props.C17.src_explicit_stack_skeleton', 'Props.C17.src_explicit_stack_step']   # ties to tensor.py as read on this run
 RULE = ('chains of depth 10..2000 (quick) / 5000 (thorough) and wide fan-out graphs over add/mul/neg/clone, run through the '
         'model and the implementation with the full engine trace compared (each recorded op called exactly once, in a topological '
         'order); programs whose ops run under no_grad or on operands that do not require grad — every op of the catalogue, optional operands absent included — (results must hold no children and '
         'no grad_fn), also as the very first statements of a fresh interpreter (first tensor created inside a pre-entered context). Runtime residue observed on the implementation only: a chain of 50 000 ops back-propagates (no recursion '
         'limit) with one call per op and linear time; operands of untracked results are freed (weakref) in a loop of 100 000 '
-        'untracked updates. Non-trivial: depth >= 200 or fan-out >= 50 or an untracked op.')
+        'untracked updates. '
+        'WORK (kind work, implementation only): graphs of nine shapes — one op with k operands (stack / concat), k consumers of one tensor, one multi-output op with k consumed outputs, '
+        'a lattice, a binary reduction tree, a chain, nested fan-in, one op whose k operands are the same tensor, dense layers (edges >> nodes) — built at size k and 2k; the work of backward() is '
+        'counted deterministically (line events and calls of synapgrad frames through sys.settrace + calls of Tensor.__hash__/__eq__, which stand in for the C-level set / list look-ups) and must grow at most linearly '
+        '(work(2k)/work(k) < 2.5; quadratic gives ~4), with exactly one grad_fn call per recorded op. '
+        'LOOPS (kind loop, implementation only): untracked loops (no_grad around the loop / per step, or operands none of which requires grad) of N and then 3N more steps over randomly chosen step templates with '
+        'STEP-DEPENDENT Python scalars (float, int, NumPy scalars, data-dependent), operators and r-operators, varying shapes, slicing, stack/unbind, reductions, activations, matmul, modules and losses; '
+        'between the two phases nothing may grow: live Tensor objects (gc), gc-tracked objects, the size of every module-level / class-level / function-default / closure container of the synapgrad modules, traced memory. '
+        'Non-trivial: depth >= 200 or fan-out >= 50 or an untracked op or a work / loop case.')
 EXHAUSTIVE = {'quick': False, 'thorough': False}
 ASSUMPTIONS = ['CPython reference counting frees unreachable tensors promptly (observed through weakref after gc.collect)']
 TRUSTED_BASE = ['harness/tprog.py']
@@ -120,6 +129,12 @@ def catalogue_untracked(rng, op, ng=None):
     return {'kind': 'untracked', 'op': op, 'lines': lines}
 
 
+
+def extract():
+    """the statement skeleton of the explicit-stack traversal is re-read from tensor.py (Generated/EngineLogic.lean); the src_* theorems are re-checked by the build"""
+    import engine_logic
+    return engine_logic.write()[0]
+
 def cases(rng, tier):
     out = []
     import gen_ops
@@ -142,12 +157,17 @@ def cases(rng, tier):
     for _ in range(40 if tier == 'quick' else 600):
         out.append(untracked(rng))
     out.append({'kind': 'runtime', 'lines': ['t modes']})
+    out += work_cases(rng, tier) + loop_cases(rng, tier)
     for c in out:
         c['desc'] = f"{c['kind']} depth={c.get('depth')} width={c.get('width')} : " + ' ; '.join(c['lines'][:12])
+        if c['kind'] in ('work', 'loop'):
+            c['desc'] = f"{c['kind']} " + ' '.join(f'{k}={v}' for k, v in c.items() if k not in ('lines', 'desc', 'kind'))
     return out
 
 
 def impl(c):
+    if c['kind'] == 'work': c['_res'] = work_failure(c)
+    if c['kind'] == 'loop': c['_res'] = loop_failure(c)
     return _io(c)
 
 
@@ -160,17 +180,25 @@ def compare(c, mo, io):
     if c['kind'] == 'runtime':
         f = runtime_residue()
         if f: diffs.append(('runtime', 'deep chain / untracked loop', f['what']))
+    if c['kind'] in ('work', 'loop') and c.get('_res'):
+        diffs.append((c['kind'], 'backward linear in nodes + edges' if c['kind'] == 'work' else 'nothing grows with the number of untracked steps', c['_res']['what']))
     return diffs
 
 
 def nontrivial(c):
-    return c.get('depth', 0) >= 200 or c.get('width', 0) >= 50 or c['kind'] in ('untracked', 'fresh')
+    return c.get('depth', 0) >= 200 or c.get('width', 0) >= 50 or c['kind'] in ('untracked', 'fresh', 'work', 'loop')
 
 
 def distribution(cases):
     d = {}
     for c in cases:
         d[c['kind']] = d.get(c['kind'], 0) + 1
+        if c['kind'] == 'work':
+            d[f"work/{c['family']}"] = d.get(f"work/{c['family']}", 0) + 1
+        if c['kind'] == 'loop':
+            d[f"loop/{c['scenario']}"] = d.get(f"loop/{c['scenario']}", 0) + 1
+            for t_ in c['steps']:
+                d[f'loop step/{t_}'] = d.get(f'loop step/{t_}', 0) + 1
     return d
 
 
@@ -228,10 +256,364 @@ def runtime_residue(depth=50000, loop=100000):
     return None
 
 
+# ---- WORK: backward is linear in nodes + edges for every graph shape ----------------------------------
+# Counted, not timed.  `sys.settrace` counts the line events and the calls of every frame whose code lives in the synapgrad
+# package while backward() runs; Tensor.__hash__ / __eq__ (identity, as the defaults) are replaced by counting versions for the
+# duration of the call, so that look-ups in sets / dicts / lists of tensors — which run in C and produce no line events — are
+# counted too.  The graph is built at size k and at size 2k; the count may at most double (plus slack).
+WORK_FAMILIES = ['fan-in', 'fan-out', 'multi-output', 'lattice', 'tree', 'chain', 'nested-fan-in', 'same-operand', 'dense-layers']
+WORK_RATIO = 2.5
+
+
+def work_cases(rng, tier):
+    out = []
+    for rep in range(1 if tier == 'quick' else 4):
+        for fam in WORK_FAMILIES:
+            out.append({'kind': 'work', 'family': fam, 'k': rng.randint(300, 500) if tier == 'quick' else rng.randint(300, 1500), 'variant': rng.randrange(1 << 16), 'lines': ['t modes']})
+    return out
+
+
+def build_graph(sg, fam, k, variant):
+    """the root of a differentiable graph of `size` k (nodes + edges proportional to k); every choice derives from `variant`"""
+    r = common.Rng(variant)
+    d = r.pick([1, 3, 4])
+    w = sg.Tensor(np.linspace(0.5, 1.5, d), requires_grad=True)
+    v = sg.Tensor(np.linspace(-1.0, 1.0, d), requires_grad=r.chance(.5))
+    def term(i):      # a non-leaf operand
+        c = float(i % 7 + 1)
+        j = (variant + i) % 5
+        return w * c if j == 0 else w + v if j == 1 else -w if j == 2 else w * w if j == 3 else sg.add(v, w) * c
+    join = r.pick(['stack', 'concat'])
+    def joined(ts, dim=0):
+        return sg.stack(ts, dim=dim) if join == 'stack' else sg.concat(ts, dim=dim)
+    if fam == 'fan-in':                     # ONE recorded op with k operands
+        return joined([term(i) for i in range(k)], r.pick([0, -1]) if join == 'stack' else 0).sum()
+    if fam == 'same-operand':               # one op whose k operands are one and the same tensor
+        t = term(variant)
+        return joined([t] * k).sum()
+    if fam == 'fan-out':                    # one tensor with k consumers, reduced by a chain of additions
+        t = term(variant)
+        acc = t * 1.0
+        for i in range(k):
+            u = t * float(i + 1) if i % 2 else t + v
+            acc = acc + u if (variant + i) % 3 else u + acc
+        return acc.sum()
+    if fam == 'multi-output':               # one op with k outputs, every output consumed
+        x = sg.Tensor(np.ones((k, d)), requires_grad=True)
+        parts = sg.unbind(x * 2.0, 0)
+        return joined([p_ * p_ if i % 2 else p_ + w for i, p_ in enumerate(parts)]).sum()
+    if fam == 'lattice':                    # wide and deep: `wd` nodes per layer, every node feeds two nodes of the next layer
+        wd = r.pick([4, 8, 16])
+        layer = [term(j) for j in range(wd)]
+        for l_ in range(max(1, k // wd)):
+            layer = [layer[j] + layer[(j + 1 + l_) % wd] if (j + l_) % 3 else layer[j] * layer[(j + 1) % wd] * 0.5 for j in range(wd)]
+        return joined(layer).sum()
+    if fam == 'tree':                       # binary reduction of k non-leaf operands
+        layer = [term(i) for i in range(k)]
+        while len(layer) > 1:
+            layer = [layer[i] + layer[i + 1] if i + 1 < len(layer) else layer[i] for i in range(0, len(layer), 2)]
+        return layer[0].sum()
+    if fam == 'chain':
+        y = w
+        for i in range(k):
+            j = (variant + i) % 4
+            y = y * 1.0 + 0.5 if j == 0 else sg.add(v, y) if j == 1 else (-y) if j == 2 else y.clone()
+        return y.sum()
+    if fam == 'nested-fan-in':              # k/g groups of g operands, joined again
+        g = r.pick([10, 20])
+        return sg.stack([joined([term(i * g + j) for j in range(g)]) for i in range(max(1, k // g))], 0).sum()
+    if fam == 'dense-layers':               # every node of a layer consumes EVERY node of the previous one: edges = wd * nodes
+        wd = r.pick([6, 10])
+        layer = [term(j) for j in range(wd)]
+        for l_ in range(max(1, k // (wd * wd))):
+            layer = [sg.stack(layer[j:] + layer[:j], 0).sum(0) * (1.0 / wd) for j in range(wd)]
+        return sg.stack(layer).sum()
+    raise ValueError(fam)
+
+
+def graph_size(root):
+    """(non-leaf nodes with a grad_fn, nodes, edges) of the differentiable graph below `root`, by the harness's own walk"""
+    seen, todo, edges, fns = {id(root)}, [root], 0, 0
+    while todo:
+        n = todo.pop()
+        fns += n.grad_fn is not None
+        for ch in n._children:
+            edges += 1
+            if id(ch) not in seen:
+                seen.add(id(ch)); todo.append(ch)
+    return fns, len(seen), edges
+
+
+def count_backward(sg, root):
+    """deterministic amount of work of root.backward(): line events + calls of synapgrad frames + hash / eq calls on tensors"""
+    T = sg.Tensor
+    BF = sg.functional.BackwardFunction
+    pkg = os.path.join(os.path.abspath(common.REPO), 'synapgrad') + os.sep
+    cnt = {'line': 0, 'call': 0, 'hash_eq': 0, 'fn': 0}
+    def local(frame, event, arg):
+        if event == 'line': cnt['line'] += 1
+        return local
+    def tracer(frame, event, arg):
+        if event == 'call' and frame.f_code.co_filename.startswith(pkg):
+            cnt['call'] += 1
+            return local
+        return None
+    def eq(a, b):
+        cnt['hash_eq'] += 1; return a is b
+    def hs(a):
+        cnt['hash_eq'] += 1; return id(a) >> 4
+    oc = BF.__call__
+    def call(s_):
+        cnt['fn'] += 1; return oc(s_)
+    had_eq, had_hash = T.__dict__.get('__eq__'), T.__dict__.get('__hash__')
+    if had_eq is None and had_hash is None:         # only stand in for the DEFAULT identity semantics
+        T.__eq__ = eq; T.__hash__ = hs
+    BF.__call__ = call
+    old = sys.gettrace()
+    sys.settrace(tracer)
+    try:
+        with common.quiet():
+            root.backward()
+    finally:
+        sys.settrace(old)
+        BF.__call__ = oc
+        if had_eq is None and had_hash is None:
+            del T.__eq__; del T.__hash__
+    return cnt
+
+
+def work_failure(c):
+    sg = common.impl()
+    def fail(cls, what):
+        return {'key': {'cls': cls, 'family': c['family']}, 'what': what}
+    res = []
+    for k in (c['k'], 2 * c['k']):
+        try:
+            root = build_graph(sg, c['family'], k, c['variant'])
+            fns, nodes, edges = graph_size(root)
+            cnt = count_backward(sg, root)
+        except RecursionError:
+            return fail('recursion', f"backward on the {c['family']} graph of size {k} raised RecursionError")
+        if cnt['fn'] != fns:
+            return fail('calls', f"{c['family']} graph of size {k}: {cnt['fn']} grad_fn calls for {fns} recorded ops")
+        res.append((k, nodes + edges, cnt['line'] + cnt['call'] + cnt['hash_eq'], cnt))
+        del root
+    (k1, s1, w1, c1), (k2, s2, w2, c2) = res
+    growth, gsize = w2 / max(w1, 1), s2 / max(s1, 1)
+    if growth > WORK_RATIO * gsize / 2:
+        return fail('superlinear', f"backward over the {c['family']} graph (variant {c['variant']}): {w1} units of work (line events + calls in synapgrad frames + tensor hash/eq calls) for "
+                    f"{s1} nodes+edges at k={k1} ({w1 / s1:.1f} per item), {w2} for {s2} at k={k2} ({w2 / s2:.1f} per item): the work grows x{growth:.2f} when the graph grows x{gsize:.2f} "
+                    f"(linear = x{gsize:.2f}, quadratic = x{gsize * gsize:.2f}); counts {c1} -> {c2}")
+    return None
+
+
+# ---- LOOPS: untracked computations keep nothing, whatever the steps look like ---------------------------
+LOOP_STEPS = ['mul-add-float', 'r-operators', 'int-scalar', 'division', 'pow', 'neg-sub', 'numpy-scalar', 'data-dependent-scalar', 'tensor-constant', 'varying-shape',
+              'reshape-transpose', 'slice-concat', 'stack-unbind', 'reductions', 'activations', 'matmul', 'module', 'loss', 'detach-clone', 'iterate']
+LOOP_SCENARIOS = ['no_grad around the loop', 'no_grad per step', 'no operand requires grad']
+
+
+def loop_cases(rng, tier):
+    out = []
+    n = 10 if tier == 'quick' else 40
+    for j in range(n):
+        # every step template occurs in the cases of one run: case j is built around templates 2j, 2j+1 (mod) plus random ones
+        steps = [LOOP_STEPS[(2 * j) % len(LOOP_STEPS)], LOOP_STEPS[(2 * j + 1) % len(LOOP_STEPS)]] + [rng.pick(LOOP_STEPS) for _ in range(rng.randint(1, 4))]
+        if j % 3 == 0 and 'mul-add-float' not in steps: steps.append('mul-add-float')
+        rng.shuffle(steps)
+        out.append({'kind': 'loop', 'scenario': LOOP_SCENARIOS[j % 3] if j < 6 else rng.pick(LOOP_SCENARIOS), 'steps': steps, 'd': rng.pick([1, 3, 8]),
+                    'n': rng.randint(60, 120) if tier == 'quick' else rng.randint(150, 500), 't0': rng.randrange(10 ** 6), 'lines': ['t modes']})
+    return out
+
+
+def _loop_runner(sg, c):
+    """returns run(t_first, n): executes n steps of the case's loop on its state"""
+    from synapgrad import nn
+    F = sg.nn.functional
+    d = c['d']
+    ng_all, ng_step = c['scenario'] == LOOP_SCENARIOS[0], c['scenario'] == LOOP_SCENARIOS[1]
+    rg = c['scenario'] != LOOP_SCENARIOS[2]
+    st = {'x': sg.Tensor(np.linspace(0.5, 1.5, d), requires_grad=rg)}
+    s = sg.Tensor(np.linspace(1.0, 2.0, d), requires_grad=rg)
+    W = sg.Tensor(np.eye(d) * 0.5 + 0.1, requires_grad=rg)
+    lin = nn.Linear(d, d) if rg else None           # (its parameters require grad: used in the no_grad scenarios only)
+    mse = nn.MSELoss()
+
+    def step(name, x, t):
+        a = 1.0 / (t + 2.0)
+        if name == 'mul-add-float': return x * (1.0 - a) + s * a
+        if name == 'r-operators': return (t + 1.5) - ((2.0 ** -(t % 5)) * x + (0.25 * t)) + (0.25 * t) * 1.0 - (t + 1.5) + x * 0.0
+        if name == 'int-scalar': return ((x + t) - t) * 1 + (t % 97) * 0
+        if name == 'division': return (x / (t + 3.0)) * (t + 3.0) + (1.0 + a) / (x * x + 1.0) * 0.0
+        if name == 'pow': return (x * x + 1.0) ** (1.0 / (t % 7 + 2)) - 0.5 + (1.0 + a) ** (x * 0.0) * 0.0
+        if name == 'neg-sub': return -(s * (0.001 * (t % 1000)) - x) * 0.5
+        if name == 'numpy-scalar': return x * np.float64(1.0 + a) + np.float32(t % 13) * 0.0 - np.int64(t) * 0.0
+        if name == 'data-dependent-scalar':
+            m = float(x.mean().item())
+            return x * (1.0 / (1.0 + abs(m))) + (m * 1e-3 + a)
+        if name == 'tensor-constant': return sg.add(x, sg.tensor(np.full(d, a))) * sg.tensor(np.float64(1.0 - a))
+        if name == 'varying-shape':
+            y = sg.ones(t % 6 + 1, d) * (0.5 + t % 3) + sg.zeros(t % 4 + 1, 1, 1).sum() + sg.arange(t % 5 + 1).sum() * 0.0
+            return x * 0.5 + y.mean(0) * a
+        if name == 'reshape-transpose': return x.reshape((1, d)).transpose(0, 1).flatten().unsqueeze(0).squeeze(0) * (1.0 - a)
+        if name == 'slice-concat':
+            j = t % d
+            return sg.concat([x[j:], x[:j]], 0) * 0.5 + x[t % d] * a
+        if name == 'stack-unbind':
+            parts = sg.unbind(sg.stack([x, s * float(t % 11)], 0), 0)
+            return parts[0] * 0.5 + parts[1] * a * 0.01
+        if name == 'reductions': return (x - x.mean() * a) / (x.max(0) * x.max(0) + 1.0 + a) + x.sum() * 0.0 + x.min(0) * 0.0
+        if name == 'activations': return F.softmax(F.relu(x) * (1.0 + a), -1) + F.tanh(x * a) + F.sigmoid(x - t % 3) * 0.1 + F.log_softmax(x, 0) * 0.0
+        if name == 'matmul': return (x.reshape((1, d)) @ W).reshape((d,)) * (1.0 - a) + s * a
+        if name == 'module': return (lin(x.reshape((1, d))).reshape((d,)) * a + x * 0.5) if lin is not None else F.linear(x.reshape((1, d)), W).reshape((d,)) * a + x * 0.5
+        if name == 'loss': return x * 0.5 + mse(x, s) * a + F.mse_loss(x * (1.0 + a), s) * 0.0
+        if name == 'detach-clone': return x.detach().clone() * (1.0 - a) + a
+        if name == 'iterate': return sg.stack([r_ * (1.0 + a) for r_ in x.reshape((d, 1))], 0).reshape((d,)) * 0.5 + float(len(x)) * a
+        raise ValueError(name)
+
+    def one(t):
+        x = st['x']
+        for name in c['steps']:
+            x = step(name, x, t)
+        st['x'] = x
+
+    def run(t_first, n):
+        with np.errstate(all='ignore'), common.quiet():
+            if ng_all:
+                with sg.no_grad():
+                    for t in range(t_first, t_first + n): one(t)
+            elif ng_step:
+                for t in range(t_first, t_first + n):
+                    with sg.no_grad(): one(t)
+            else:
+                for t in range(t_first, t_first + n): one(t)
+    return run, st
+
+
+def _csize(o, depth, seen):
+    """number of elements held by a container, nested containers and the attribute dictionaries of synapgrad objects included"""
+    if id(o) in seen or depth < 0: return 0
+    if isinstance(o, (dict, list, set, frozenset, tuple, collections.deque)):
+        seen.add(id(o))
+        items = (list(o.values()) + list(o.keys())) if isinstance(o, dict) else list(o)
+        return len(o) + sum(_csize(v, depth - 1, seen) for v in items)
+    if isinstance(o, (types.ModuleType, type, types.FunctionType, types.BuiltinFunctionType, np.ndarray, str, bytes, int, float)): return 0
+    dct = getattr(o, '__dict__', None)
+    if isinstance(dct, dict) and str(type(o).__module__).startswith('synapgrad'):
+        seen.add(id(o))
+        return _csize(dct, depth - 1, seen)
+    return 0
+
+
+def persistent_containers():
+    """{where: size} for everything that outlives a call: module-level objects, class-level objects, function defaults / attributes /
+    closures / memoisation caches — of every loaded synapgrad module (each object once, under the first name it is found by)"""
+    out, done = {}, set()
+    def put(path, v, size=None):
+        if id(v) in done: return
+        done.add(id(v))
+        n = _csize(v, 4, set()) if size is None else size
+        if n: out[path] = n
+    def fn_roots(path, f):
+        if id(f) in done: return
+        done.add(id(f))
+        for nm in ('__defaults__', '__kwdefaults__', '__dict__'):
+            v = getattr(f, nm, None)
+            if v: put(f'{path}.{nm}', v)
+        for k, cell in enumerate(getattr(f, '__closure__', None) or ()):
+            try: put(f'{path}.<closure {k}>', cell.cell_contents)
+            except ValueError: pass
+        ci = getattr(f, 'cache_info', None)
+        if callable(ci):
+            try: put(f'{path}.<memo>', ci, ci().currsize)
+            except Exception: pass
+        w_ = getattr(f, '__wrapped__', None)
+        if isinstance(w_, types.FunctionType): fn_roots(path + '.__wrapped__', w_)
+    isfn = lambda f: isinstance(f, types.FunctionType) or callable(getattr(f, 'cache_info', None))
+    for mn, m in sorted((k, v) for k, v in sys.modules.items() if v is not None and (k == 'synapgrad' or k.startswith('synapgrad.'))):
+        for name, v in list(vars(m).items()):
+            if (name.startswith('__') and name.endswith('__') and name != '__all__') or isinstance(v, types.ModuleType): continue
+            path = f'{mn}.{name}'
+            if isinstance(v, type):
+                if not str(getattr(v, '__module__', '')).startswith('synapgrad') or id(v) in done: continue
+                done.add(id(v))
+                for an, av in list(vars(v).items()):
+                    if an in ('__dict__', '__weakref__', '__doc__', '__module__'): continue
+                    f = av.__func__ if isinstance(av, (staticmethod, classmethod)) else av.fget if isinstance(av, property) else av
+                    if isfn(f): fn_roots(f'{path}.{an}', f)
+                    else: put(f'{path}.{an}', av)
+            elif isfn(v):
+                if str(getattr(v, '__module__', '')).startswith('synapgrad'): fn_roots(path, v)
+            else:
+                put(path, v)
+    return out
+
+
+def _snapshot(T):
+    gc.collect()
+    objs = gc.get_objects()
+    live = sum(1 for o in objs if isinstance(o, T))
+    n = len(objs)
+    del objs
+    return live, n
+
+
+_LOOP_RUNS = [0]
+
+
+def loop_failure(c):
+    """run the case's untracked loop for a warm-up, then n steps (phase A), then 3n more (phase B); nothing may have grown in B.
+    Every execution in one process uses step numbers no earlier execution has used (the first one starts at the case's `t0`): what a
+    memoising table already holds would otherwise hide its growth from a re-run of the same case."""
+    sg = common.impl()
+    T = sg.Tensor
+    n, t = c['n'], c['t0'] + 10 ** 7 * _LOOP_RUNS[0]
+    _LOOP_RUNS[0] += 1
+    first = t
+    def fail(cls, what):
+        return {'key': {'cls': cls}, 'what': f"untracked loop ({c['scenario']}; steps {c['steps']}; vectors of {c['d']}; step numbers from {first}): " + what}
+    try:
+        run, st = _loop_runner(sg, c)
+        run(t, 20); t += 20
+        was = tracemalloc.is_tracing()
+        tracemalloc.start()
+        run(t, n); t += n
+        gc.collect(); memA = tracemalloc.get_traced_memory()[0]
+        tracemalloc.stop()
+        liveA, objsA = _snapshot(T)
+        contA = persistent_containers()
+        tracemalloc.start()
+        run(t, 3 * n); t += 3 * n
+        gc.collect(); memB = tracemalloc.get_traced_memory()[0]
+        tracemalloc.stop()
+        if was: tracemalloc.start()
+        liveB, objsB = _snapshot(T)
+        contB = persistent_containers()
+    except Exception as e:
+        return fail('raises', f'raised {type(e).__name__}: {e}')
+    c['_metrics'] = {'live': (liveA, liveB), 'gc objects': (objsA, objsB), 'bytes alive allocated in the phase': (memA, memB)}
+    x = st['x']
+    if x.requires_grad or len(x._children) or x.grad_fn is not None:
+        return fail('history', f'the result is tracked: requires_grad={x.requires_grad} children={len(x._children)} grad_fn={x.grad_fn}')
+    grown = {k: (contA.get(k, 0), v) for k, v in contB.items() if v - contA.get(k, 0) > 2}
+    if grown:
+        return fail('container', f'persistent containers grew during {3 * n} further steps (size after {n} steps, after {4 * n} steps): {grown}')
+    if liveB - liveA > 2:
+        return fail('live-tensors', f'{liveA} Tensor objects alive after {n} steps, {liveB} after {4 * n} steps: tensors of earlier untracked steps stay alive')
+    if objsB - objsA > n // 8 + 24:
+        return fail('live-objects', f'{objsA} gc-tracked objects after {n} steps, {objsB} after {4 * n} steps')
+    if memB - memA > 16 * 1024 + memA:
+        return fail('memory', f'{memA} bytes allocated and still alive after the {n} steps of phase A, {memB} after the {3 * n} steps of phase B')
+    return None
+
+
 def oracle(c):
     if c['kind'] == 'runtime':
         f = runtime_residue()
         return dict(f, case={'kind': 'runtime'}) if f else None
+    if c['kind'] in ('work', 'loop'):
+        f = work_failure(c) if c['kind'] == 'work' else loop_failure(c)
+        return dict(f, case={k: v for k, v in c.items() if not k.startswith('_') and k != 'desc'}) if f else None
     io = _io(c)
     for li, (l, o) in enumerate(zip(c['lines'], io)):
         if l.startswith('t bw'):
